@@ -333,7 +333,7 @@ def minimise(pool, run, res, refs, bad):
 
 def run(ctx):
     rep = ctx.reporter(PROP, LEVEL)
-    n_runs = {"quick": 1300, "thorough": 40000}[ctx.tier]
+    n_runs = {"quick": 2000, "thorough": 40000}[ctx.tier]
     n_runs = int(n_runs * ctx.scale)
     runs = [make_run(ctx.seed, i) for i in range(n_runs)]
     distinct = set()
